@@ -8,6 +8,7 @@ import functools
 import inspect
 import sys
 import types
+import typing
 from collections.abc import Callable
 from fractions import Fraction
 from typing import Any
@@ -85,6 +86,11 @@ def _cvt_index(val: Value):
 def _cvt_context_arg(cls: type[Context], name: str, arg: Any, ty: type):
     # opaque payloads (e.g. an `rng`) cross back to Python
     arg = unwrap_foreign(arg)
+    # an optional parameter (`num_randbits: int | None`) converts like its type
+    if isinstance(ty, types.UnionType) and arg is not None:
+        members = [t for t in typing.get_args(ty) if t is not type(None)]
+        if len(members) == 1:
+            ty = members[0]
     if ty is int:
         # convert to int
         val = _cvt_float(arg)
